@@ -2,8 +2,8 @@
 
 Domain : models in MJX's supported set (vf/gen_mjx.py) x batches of 2-6 states x state signatures
          (all 2^14 for state_size, a sample for get/set).
-Oracle : (A) jit(vmap(f))(xs)[i] == jit(f)(xs[i]) on EVERY leaf of the returned mjx.Data for f = step (solver capped at
-             6 iterations, tolerance 1e-6: batch members leave the solver loop at different iterations) and f = forward
+Oracle : (A) jit(vmap(f))(xs)[i] == jit(f)(xs[i]) on EVERY leaf of the returned mjx.Data for f = step (solver tolerance
+             1e-10: batch members leave the solver loop at different iterations) and f = forward
              without collision/constraint/solver; jit(f)(x) == eager f(x) (jax.disable_jit) for the latter on 1-2 samples
              per model and for step once per worker in the thorough tier (eager step costs minutes); scaled tolerance
              (XLA may re-associate / fuse);
@@ -133,10 +133,11 @@ def check_transparency(ck, lib, gm, seeds, worst, eager_samples, eager_step=0):
   B = len(states)
   dxb = gx.batch_data(c, states)
 
-  # eager (op-by-op) evaluation of the Newton solver is very slow: the transparency relation is checked on a copy of the
-  # model with few solver / line-search iterations and a non-zero tolerance, so that batch members leave the solver
-  # while_loop at different iteration counts (vmap must mask them) and eager evaluation stays affordable.
-  mx = c.mx.replace(opt=c.mx.opt.replace(iterations=6, ls_iterations=6, tolerance=jp.asarray(1e-6, dtype=c.mx.opt.tolerance.dtype)))
+  # solver tolerance 1e-10 instead of the generated 0: batch members leave the solver while_loop at different iteration
+  # counts (vmap must mask them) while the result stays converged.  (A truncated solver - few iterations - is NOT a
+  # usable subject: its output is a discontinuous function of the inputs, rounding-level differences between the
+  # batched and the unbatched program were observed to grow to 2e-2.)
+  mx = c.mx.replace(opt=c.mx.opt.replace(tolerance=jp.asarray(1e-10, dtype=c.mx.opt.tolerance.dtype)))
   from mujoco.mjx._src import forward as fwd_mod
   from mujoco.mjx._src import sensor as sensor_mod
 
@@ -254,8 +255,16 @@ def check_roundtrip(ck, lib, c, gm, s, steps):
       # documented: MJX allocates a static number of contact slots per geom pair (collision_driver.make_condim)
       ck.discard('B:static-capacity'); return
     raise Violation('put_data raised ValueError: %s' % str(e)[:300], bucket='B-exception')
-  if not gx.get_data_roundtrips_contacts(md):
-    ck.discard('B:contact-in-margin'); return
+  if not gx.get_data_roundtrips_contacts(md) and not FINDINGS:
+    ck.discard('B:finding-contact-in-margin'); return      # candidate finding F19
+  if md.nefc and not FINDINGS:
+    Jd = md.efc_J.reshape(md.nefc, -1) if not mujoco.mj_isSparse(mm) else dense(
+        mujoco, md.efc_J, md.efc_J_rownnz, md.efc_J_rowadr, md.efc_J_colind, md.nefc, mm.nv)
+    if not (Jd != 0).any(axis=1).all():
+      # candidate finding F22: get_data keeps rows with a non-zero Jacobian only (efc_active = (efc_J != 0).any(axis=1)):
+      # genuine rows whose Jacobian is exactly zero (connect/weld between rigidly attached bodies, contacts between
+      # static/mocap geoms) are dropped, nefc and contact.efc_address change
+      ck.discard('B:finding-zero-jacobian-rows'); return
   try:
     back = mjx.get_data(mm, dx)
   except Exception as e:
@@ -466,7 +475,7 @@ def check_state_api(ck, lib, c, gm, s, s2, rng, nsig):
 
 
 RULE = ('models from vf.gen_mjx.models. (A) per model a batch of 3-6 states (odd ones settled by C steps): jit(vmap(f))[i] vs '
-        'jit(f)(x_i) for all i on every pytree leaf for f = step (solver limited to 6 iterations, tolerance 1e-6 so that batch '
+        'jit(f)(x_i) for all i on every pytree leaf for f = step (solver tolerance 1e-10 so that batch '
         'members leave the solver loop at different iterations) and f = forward-without-collision/solver; jit(f) vs eager f for '
         '1-2 samples of the latter (eager step only in the thorough tier: minutes per call); non-trivial = batch whose states have '
         '>1 distinct (active contact set, active row set); (B) wheel MjData after 0/15/60 steps -> put_data -> '
